@@ -81,3 +81,16 @@ package quorum
 //@   loop 1 invariant #outer allocframe("M$map[uint64]struct{}") && 0 <= iter && iter <= 2 && m != nil && fresh(m)
 //@        && (forall id uint64 :: has(m, id) <==> ((iter >= 1 && has(c[0], id)) || (iter >= 2 && has(c[1], id))))
 //@   loop 2 invariant #inner allocframe("M$map[uint64]struct{}") && 0 <= slice_iter && slice_iter < 2 && m != nil && fresh(m) && (forall id uint64 :: has(m, id) <==> ((slice_iter >= 1 && has(c[0], id)) || (slice_iter >= 2 && has(c[1], id)) || seen(id)))
+
+//@ -- ------------------------------------------------------------------------------------------
+//@ -- Slice: the ids of the set, each once, in strictly ascending order (used for ConfState, C13/C19)
+//@ pred opaque ids_of(s []uint64, c MajorityConfig) := len(s) == len(c) && (forall i int :: {s[i]} 0 <= i && i < len(s) ==> has(c, s[i]))
+//@     && (forall i int, j int :: {s[i], s[j]} 0 <= i && i < j && j < len(s) ==> s[i] < s[j])
+//@ func quorum.MajorityConfig.Slice [C13 C19]
+//@   reveal ids_of
+//@   frame elems uint64:
+//@   ensures #ids-of [C13 C19] ids_of(result, c)
+//@   ensures #fresh len(result) > 0 ==> fresh(result)
+//@   loop 1 invariant #fill len(sl) == iter && (iter > 0 ==> fresh(sl)) && (iter == 0 ==> cap(sl) == 0)
+//@   loop 1 invariant #frame allocframe("E$uint64")
+//@   loop 1 invariant #filled forall a int :: {elem(sl, a)} sl.off <= a && a < sl.off + len(sl) ==> elem(sl, a) == key(a - sl.off)
